@@ -10,10 +10,10 @@ import (
 
 func init() {
 	register(&Property{
-		ID:  "C01",
-		Run: runC01,
+		ID:          "C01",
+		Run:         runC01,
 		Explanation: "Capacity bound as a bookkeeping invariant: with the state confined to one goroutine (C20) it suffices that on every CFG path Σactual+Σtactic <= HandlersQuantity whenever the output can be written and that `actual` over-approximates the items in flight. B1 each successful output send is followed, in the sending function, by exactly one tactic[k]-=1 and one actual[k]+=1 with k the Priority tag of the value sent, and no bookkeeping change happens when the send did not succeed; B2 every call of the sending function is dominated by tactic[k] != 0 with no writer of tactic in between; B3 every writer of the tactic map is one of the classified forms; B4 vacants = HandlersQuantity - sum(actual); B5 the top-up writes strategic[p]-actual[p] only under actual[p] <= strategic[p] and answers true only if what it wrote sums to vacants; B7 safeDivide returns nil only for a total of 0 or when after-before equals the dividend, both sums taken by the same overflow-checked helper around the single divider call; B9 actual[k]-=1 happens exactly once per value received from the release channel; B10 typestate of the tactic map (Z all-zero, E established, T/D pending on the tested result, U unknown) over the whole scheduler with boolean-result pruning: the sending function is reachable only in Z or E, divisions are accepted only from Z with the vacants value or with a remainder measured while the map was Z/E and no send since (this subsumes B6 and B8); B11 (v1) delete(actual,k) only under actual[k]==0 and input k unregistered; B12 the simplified disciplines run Handle between receive and release.",
-		NotDecided: []string{"nothing of the bound itself; the arithmetic of a particular divider is irrelevant thanks to B7 (a custom divider that breaks the sum rule is C15's subject)"},
+		NotDecided:  []string{"nothing of the bound itself; the arithmetic of a particular divider is irrelevant thanks to B7 (a custom divider that breaks the sum rule is C15's subject)"},
 	})
 }
 
@@ -305,26 +305,19 @@ func checkB4(c *Ctx, pr *prioRoles) {
 	if !p.isPlainSum(pr.sumFn) {
 		problems = append(problems, "the helper "+pr.sumFn.Name()+" is not a plain accumulation over the map it is given")
 	}
-	n := 0
-	for _, s := range p.resultSyms(pr.vacantsFn, 0) {
-		if k, ok := symConstInt(s); ok && k == 0 {
-			continue // v1 error path
-		}
-		n++
-		d := deepStrip(s)
-		ok := d.Op == "bin" && d.Name == "-" && len(d.Args) == 2 && d.Args[1].Op == "call" && d.Args[1].V != nil
-		if ok {
-			_, path, okp := d.Args[0].FieldPath()
-			ok = okp && strings.Join(path, ".") == "opts.HandlersQuantity"
-			call, _ := d.Args[1].V.(*ssa.Call)
-			ok = ok && call != nil && p.Callee(call) == pr.sumFn && p.isFieldLoad(call.Call.Args[0], "actual")
-		}
-		if !ok {
-			problems = append(problems, "vacants is computed as "+d.String()+", not HandlersQuantity - sum(actual)")
-		}
+	if len(pr.vacantsExprs) == 0 {
+		problems = append(problems, "no HandlersQuantity - sum(actual) computation found")
 	}
-	if n == 0 {
-		problems = append(problems, "no non-constant vacants result")
+	if !pr.vacantsInline {
+		// the helper returns nothing else
+		for _, s := range p.resultSyms(pr.vacantsFn, 0) {
+			if k, ok := symConstInt(s); ok && k == 0 {
+				continue // v1 error path
+			}
+			if _, isVac := pr.vacantsValue(s.V); !isVac {
+				problems = append(problems, "vacants is computed as "+deepStrip(s).String()+", not HandlersQuantity - sum(actual)")
+			}
+		}
 	}
 	c.R.Check(len(problems) == 0, "B4", p.FnKey(pr.vacantsFn), p.Pos(pr.vacantsFn.Pos()), "HandlersQuantity - sum(actual)", strings.Join(problems, "; "))
 }
@@ -567,36 +560,20 @@ func checkB7(c *Ctx, pr *prioRoles) {
 
 func checkB9(c *Ctx, pr *prioRoles) {
 	p := pr.p
-	// the decrement helper: key = its parameter
-	dec := pr.decActualFn
-	var keyPar *ssa.Parameter
-	for _, b := range dec.Blocks {
-		for _, in := range b.Instrs {
-			if w, ok := p.mapWriteOf(nil, in); ok && w.Field == "actual" && w.Kind == "delta" && w.Delta == -1 {
-				keyPar, _ = w.Key.V.(*ssa.Parameter)
-			}
+	// every decrement of actual consumes a value just received from the release channel, exactly
+	// once per received value - wherever the statement sits (a helper or the receiving clause itself)
+	isDec := func(fr *Frame, in ssa.Instruction) (ssa.Value, bool) {
+		mu, ok := in.(*ssa.MapUpdate)
+		if !ok {
+			return nil, false
 		}
-	}
-	if keyPar == nil {
-		c.R.Fail("B9", p.FnKey(dec), p.Pos(dec.Pos()), "UNDECIDED: the decremented key is not a parameter of the decrement helper")
-		return
-	}
-	idx := paramIndex(dec, keyPar)
-	// every -1 on actual is in that helper
-	for _, g := range p.Funcs() {
-		if rel, _ := p.Rel(g); rel != "priority" || g == dec || !p.Live()[g] {
-			continue
+		if w, ok := p.mapWriteOf(fr, in); ok && w.Field == "actual" && w.Kind == "delta" && w.Delta == -1 {
+			return mu.Key, true
 		}
-		for _, b := range g.Blocks {
-			for _, in := range b.Instrs {
-				if w, ok := p.mapWriteOf(nil, in); ok && w.Field == "actual" && !(w.Kind == "delta" && w.Delta == 1) {
-					c.R.Fail("B9", p.FnKey(g)+"#actual-write", p.InstrPos(in), fmt.Sprintf("actual[%s] is written (%s %+d) outside the release path: capacity that is still in use is freed", w.Key, w.Kind, w.Delta))
-				}
-			}
-		}
+		return nil, false
 	}
-	// roots: functions with release receives
 	covered := map[ssa.Instruction]bool{}
+	roots := 0
 	for _, fn := range pr.rt.Funcs {
 		has := false
 		for _, rs := range p.RecvSites(fn) {
@@ -607,13 +584,14 @@ func checkB9(c *Ctx, pr *prioRoles) {
 		if !has {
 			continue
 		}
+		roots++
 		cfg := &ItemFlowConfig{
 			P:        p,
 			IsSource: func(rs *RecvSite) bool { return pr.isReleaseRecv(rs) },
-			SinkCall: func(fr *Frame, call ssa.CallInstruction) (bool, ssa.Value) {
-				if p.Callee(call) == dec {
-					covered[call] = true
-					return true, call.Common().Args[idx]
+			SinkInstr: func(fr *Frame, in ssa.Instruction) (bool, ssa.Value) {
+				if k, ok := isDec(fr, in); ok {
+					covered[in] = true
+					return true, k
 				}
 				return false, nil
 			},
@@ -623,8 +601,27 @@ func checkB9(c *Ctx, pr *prioRoles) {
 		res := RunItemFlow(cfg, fn)
 		c.R.Check(len(res.Problems) == 0, "B9", p.FnKey(fn), p.Pos(fn.Pos()), fmt.Sprintf("%d release receive(s), each followed by exactly one actual[received]-=1", res.Sources), strings.Join(res.Problems, "; "))
 	}
-	for _, cs := range p.CallSites(dec) {
-		c.R.Check(covered[cs], "B9", p.FnKey(cs.Parent())+"#dec", p.InstrPos(cs), "fed by a release receive", "actual is decremented at a site that is not fed by a value received from the release channel: capacity in use is freed")
+	if roots == 0 {
+		c.R.Fail("B9", pr.key, "-", "UNRESOLVED-ANCHOR: no receive from the release channel in the scheduler")
+	}
+	// every other write to actual (anything but +1 at the send) is a failure
+	for _, g := range p.Funcs() {
+		if rel, _ := p.Rel(g); rel != "priority" || !p.Live()[g] {
+			continue
+		}
+		for _, b := range g.Blocks {
+			for _, in := range b.Instrs {
+				w, ok := p.mapWriteOf(nil, in)
+				if !ok || w.Field != "actual" || (w.Kind == "delta" && w.Delta == 1) {
+					continue
+				}
+				if w.Kind == "delta" && w.Delta == -1 {
+					c.R.Check(covered[in], "B9", p.FnKey(g)+"#dec", p.InstrPos(in), "fed by a release receive", "actual is decremented at a site that is not fed by a value received from the release channel: capacity in use is freed")
+					continue
+				}
+				c.R.Fail("B9", p.FnKey(g)+"#actual-write", p.InstrPos(in), fmt.Sprintf("actual[%s] is written (%s %+d) outside the release path: capacity that is still in use is freed", w.Key, w.Kind, w.Delta))
+			}
+		}
 	}
 }
 
@@ -663,6 +660,16 @@ func checkB11(c *Ctx, pr *prioRoles) {
 						}
 						if (sameElem(l) && r.String() == "0") || (sameElem(r) && l.String() == "0") {
 							zero = true
+						}
+					}
+					// the comma-ok of a lookup in the input table by the same key answered false (written
+					// in place or hidden in an expression function)
+					if base, neg := condOf(iff.Cond); (e.Succ == 0) == neg {
+						d := deepStrip(p.SymX(base))
+						if d.Op == "extract" && d.Name == "1" && d.Args[0].Op == "index" {
+							if _, path, okp := d.Args[0].Args[0].FieldPath(); okp && path[len(path)-1] == "inputs" && deepStrip(d.Args[0].Args[1]).String() == deepStrip(k).String() {
+								unreg = true
+							}
 						}
 					}
 					if p.edgeIsCallResult(e, func(f *ssa.Function) bool {
@@ -724,18 +731,22 @@ func checkB10(c *Ctx, pr *prioRoles) {
 		}
 		return nil
 	}
+	instrKey := func(in ssa.Instruction) string { return p.FnKey(in.Parent()) + "#" + instrID(in) }
 	validDividend := func(fr *Frame, v ssa.Value, vac, rem string) (bool, string) {
+		if rv, _ := fr.Resolve(v); rv != nil {
+			if src, isVac := pr.vacantsValue(rv); isVac {
+				if vac == "f@"+instrKey(src) {
+					return true, "vacants"
+				}
+				return false, "a vacants value measured before the last output send"
+			}
+		}
 		call := producer(fr, v)
 		if call == nil {
 			return false, p.SymFrame(fr, v).String()
 		}
 		id := callID(call)
 		switch p.Callee(call) {
-		case pr.vacantsFn:
-			if vac == "f@"+id {
-				return true, "vacants"
-			}
-			return false, "a vacants value measured before the last output send"
 		case pr.sumFn:
 			if rem == "v@"+id {
 				return true, "remainder"
@@ -757,11 +768,12 @@ func checkB10(c *Ctx, pr *prioRoles) {
 			return false, nil
 		}
 		args := call.Common().Args
+		if !pr.vacantsInline && callee == pr.vacantsFn {
+			return true, join(m, "f@"+callID(call), rem)
+		}
 		switch callee {
 		case pr.resetFn:
 			return true, join("Z", vac, rem)
-		case pr.vacantsFn:
-			return true, join(m, "f@"+callID(call), rem)
 		case pr.sumFn:
 			if len(args) == 1 && p.isFieldLoad(args[0], "tactic") {
 				if m == "Z" || m == "E" {
@@ -769,7 +781,7 @@ func checkB10(c *Ctx, pr *prioRoles) {
 				}
 				return true, join(m, vac, "i")
 			}
-			return true, nil
+			return true, []string{st}
 		case pr.topUpFn:
 			ok, _ := validDividend(fr, args[len(args)-1], vac, rem)
 			if ok {
@@ -810,6 +822,13 @@ func checkB10(c *Ctx, pr *prioRoles) {
 	}
 	fl.Instr = func(fr *Frame, st string, in ssa.Instruction) []string {
 		m, vac, rem := split(st)
+		if pr.vacantsInline {
+			for _, e := range pr.vacantsExprs {
+				if in == ssa.Instruction(e) {
+					return join(m, "f@"+instrKey(in), rem)
+				}
+			}
+		}
 		if w, ok := p.mapWriteOf(fr, in); ok && w.Field == "tactic" {
 			_ = w
 			return join("U", vac, rem)
@@ -844,6 +863,24 @@ func checkB10(c *Ctx, pr *prioRoles) {
 					}
 					return join("E", vac, rem)
 				}
+			}
+		}
+		return nil
+	}
+	// a wrapper that hands the verdict of its division / top-up straight back: the caller's test of
+	// the wrapper's result is the test of that verdict
+	fl.Exit = func(fr *Frame, st string, ret *ssa.Return) []string {
+		m, vac, rem := split(st)
+		if fr.Parent == nil || fr.Site == nil || (!strings.HasPrefix(m, "T@") && !strings.HasPrefix(m, "D@")) {
+			return nil
+		}
+		site, isCall := fr.Site.(*ssa.Call)
+		if !isCall {
+			return nil
+		}
+		for _, rv := range returnedValues(ret) {
+			if call, ok := rv.(*ssa.Call); ok && m[2:] == callID(call) {
+				return join(m[:2]+callID(site), vac, rem)
 			}
 		}
 		return nil
